@@ -7,6 +7,7 @@
 From Coq Require Import ZArith QArith Reals List Bool Lia.
 From ADV Require Import Base.Num C13.Model C13.Spec C13.Spec2 C13.ProofsGlue C13.ProofsDrivers C13.ProofsTables C13.ProofsAnchors C13.ProofsAnchors2.
 From ADV Require Import C13.Spec3 C13.ProofsAnchors3.
+From ADV Require Import C13.Spec4 C13.Model4 C13.ProofsAnchors4.
 Import ListNotations.
 Local Open Scope R_scope.
 
@@ -185,3 +186,55 @@ Proof.
   - intro k. replace (2 * Datatypes.S k + 0)%nat with (Datatypes.S (2 * k + 1)) by lia.
     rewrite <- tech_pow_Rmult. unfold Rdiv. rewrite !Rmult_0_l. reflexivity.
 Qed.
+
+(* ---- (6) round 5: references for branches selected by a TINY-ARGUMENT test or by the ORDER parameter ---- *)
+(* Integral test, every s > 1, x > 0, K: the sum of the Hurwitz series sum_k (x+k)^-s lies within half a term of
+   partial sum + tail integral + half term.  Reference of Polygamma (s = n+1) and of Zeta (x = 1) at the new anchors. *)
+Theorem Hurwitz_series_enclosure : forall s x l K, 1 < s -> 0 < x -> is_hurwitz s x l ->
+  hz_lo s x K <= l <= hz_hi s x K /\ Rabs (l - hz_mid s x K) <= hz_rad s x K.
+Proof. intros s x l K Hs Hx Hl. split; [exact (hurwitz_enclosure s x l K Hs Hx Hl)|exact (hurwitz_mid_rad s x l K Hs Hx Hl)]. Qed.
+(* the series converges: the hypothesis is_hurwitz is satisfiable on the whole domain *)
+Theorem Hurwitz_series_converges : forall s x, 1 < s -> 0 < x -> exists l, is_hurwitz s x l.
+Proof. exact hurwitz_exists. Qed.
+Theorem Hurwitz_series_shift : forall s x l, is_hurwitz s x l -> is_hurwitz s (x + 1) (l - hz_term s x O).
+Proof. exact hurwitz_shift. Qed.
+(* psi_n(x) = (-1)^(n+1) n! sum_k (x+k)^-(n+1), any order n >= 1, any x > 0, any K: certified enclosure used by the anchors
+   on both sides of the order thresholds (n <= 26 / n >= 27 with factorialMax = 21) in every x-regime *)
+Theorem Polygamma_series_enclosure : forall (n : nat), (1 <= n)%nat -> forall (pn zl : R -> R),
+  (forall x, 0 < x -> is_hurwitz (INR (Datatypes.S n)) x (zl x) /\ pn x = polyg_sign n * IZR (zfact n) * zl x) ->
+  forall x K, 0 < x -> Rabs (pn x - polyg_mid n x K) <= polyg_rad n x K.
+Proof. exact polyg_series_enclosure. Qed.
+(* the exact cross-branch relation psi_n(x+1) = psi_n(x) + (-1)^n n! / x^(n+1), checked across the transition point x = 6 + 4n *)
+Theorem Polygamma_recurrence : forall (n : nat) (pn zl : R -> R),
+  (forall x, 0 < x -> is_hurwitz (INR (Datatypes.S n)) x (zl x) /\ pn x = polyg_sign n * IZR (zfact n) * zl x) ->
+  forall x, 0 < x -> pn (x + 1) = pn x + polyg_step n x.
+Proof. exact polyg_recurrence. Qed.
+(* polygamma_attransitionplus over R: forward recursion by any number of steps, then the value at x + iter *)
+Theorem Polygamma_transition_branch : forall (n : nat), (1 <= n)%nat -> forall (pn zl : R -> R),
+  (forall x, 0 < x -> is_hurwitz (INR (Datatypes.S n)) x (zl x) /\ pn x = polyg_sign n * IZR (zfact n) * zl x) ->
+  forall iter x, 0 < x -> pn x = pg_transition (pg_trans_lin n iter x) n iter x pn.
+Proof. exact polyg_transition. Qed.
+(* the formula pairs selected by `n > factorialMax && n*n > MaxLogFloat64` / `part_term == 0` / `nlx < MaxLogFloat64 && n < factorialMax` /
+   the overflow test of the forward recursion compute the same real numbers (given lgamma(n) = ln (n-1)!) *)
+Theorem Polygamma_log_and_linear_initialisation_agree : forall n x lgam, (1 <= n)%nat -> 0 < x ->
+  lgam = ln (IZR (zfact (n - 1))) -> pg_init_log lgam n x = pg_init_lin n x.
+Proof. exact pg_init_agree. Qed.
+Theorem Polygamma_huge_argument_forms_agree : forall n x lgam, 0 < x ->
+  lgam = ln (IZR (zfact (n - 1))) -> pg_huge_log lgam n x = pg_huge_lin n x.
+Proof. exact pg_huge_agree. Qed.
+Theorem Polygamma_transition_log_and_linear_agree : forall n iter x lgam1, 0 < x ->
+  lgam1 = ln (IZR (zfact n)) -> pg_trans_log lgam1 n iter x = pg_trans_lin n iter x.
+Proof. exact pg_trans_agree. Qed.
+Theorem Polygamma_order_test_is_n_ge_27 : forall n, pg_use_log_order n = true <-> (27 <= n)%nat.
+Proof. exact pg_use_log_order_spec. Qed.
+(* zeta_imp's branch |s| < rootEpsilon: -1/2 - log_root_two_pi s is within 2^-50 |zeta(s)| of zeta(s) on the WHOLE window, for every
+   function that has zeta's Taylor expansion at 0 (zeta_taylor0: hypothesis; the coefficients are classical constants) *)
+Theorem Zeta_tiny_argument_branch_accurate : forall Zf : R -> R, zeta_taylor0 Zf ->
+  forall s, Rabs s <= zeta_root_eps -> Rabs (zeta_small s - Zf s) <= / 2 ^ 50 * Rabs (Zf s).
+Proof. exact zeta_small_accurate. Qed.
+(* ... and the window cannot be much wider: at 4 rootEpsilon the linear formula is already off by more than 2^-49 *)
+Theorem Zeta_tiny_argument_window_needed : forall s, Rabs s = 4 * zeta_root_eps -> / 2 ^ 49 < Rabs (zeta_small s - zeta_T3 s).
+Proof. exact zeta_small_window_needed. Qed.
+(* non-trivial instances: the order test at 26 / 27, an enclosure of zeta(2, 1) with 3 terms *)
+Example polygamma_order_test_26_27 : pg_use_log_order 26 = false /\ pg_use_log_order 27 = true.
+Proof. split; reflexivity. Qed.
